@@ -176,6 +176,9 @@ func minimise(b *built, spec engSpec, tape []byte, sig string, budget time.Durat
 				}
 				tries++
 				o := runTape(b, spec, cb, "", childTimeout, race)
+				if !(o.Res != nil && hasSig(o.Res, sig)) && len(sig) > 5 && sig[:5] == "race|" {
+					o = runTape(b, spec, cb, "", childTimeout, race)
+				}
 				if o.Res != nil && o.Res.Verdict == "violation" && hasSig(o.Res, sig) {
 					root = cand
 					applied, progress = true, true
